@@ -148,6 +148,20 @@ func keyCases(r *rand.Rand, wrap func(keys A) interface{}) []pcase {
 	mut("key-unknown-member", func(k M) { k[[]string{"controller", "publicKeyMultibase", "x"}[r.Intn(3)]] = "v" })
 	mut("key-purposes-empty", func(k M) { k["purposes"] = A{} })
 	mut("key-purposes-not-array", func(k M) { k["purposes"] = "authentication" })
+	// a purposes array without a single purpose in it: present, so it must be non-empty and known
+	for _, lv := range []struct {
+		label string
+		v     A
+	}{{"number", A{1.0}}, {"null", A{nil}}, {"bool", A{true}}, {"object", A{M{"purpose": "authentication"}}},
+		{"nested-array", A{A{"authentication"}}}, {"two-non-strings", A{nil, 2.0}}} {
+		v := lv.v
+		mut("key-purposes-only-"+lv.label, func(k M) {
+			k["type"] = "JsonWebKey2020" // a type that needs no purpose, so nothing else is wrong with the key
+			delete(k, "publicKeyBase58")
+			k["publicKeyJwk"] = validJWK(r)
+			k["purposes"] = v
+		})
+	}
 	mut("key-purposes-six", func(k M) {
 		k["type"] = "JsonWebKey2020"
 		delete(k, "publicKeyBase58")
@@ -261,6 +275,10 @@ func serviceCases(r *rand.Rand, wrap func(s A) interface{}) []pcase {
 	mut("service-type-empty", func(s M) { s["type"] = "" })
 	mut("service-type-missing", func(s M) { delete(s, "type") })
 	mut("service-type-31", func(s M) { s["type"] = randID(r, 31) })
+	// the limit counts every character of the type as given, white space included
+	mut("service-type-30-plus-trailing-blank", func(s M) { s["type"] = randID(r, 30) + " " })
+	mut("service-type-leading-blank-plus-30", func(s M) { s["type"] = "\t" + randID(r, 30) })
+	mut("service-type-13-plus-18-blanks", func(s M) { s["type"] = "LinkedDomains" + strings.Repeat(" ", 18) })
 	mut("service-endpoint-missing", func(s M) { delete(s, "serviceEndpoint") })
 	mut("service-endpoint-null", func(s M) { s["serviceEndpoint"] = nil })
 	for _, b := range badURIs[:4] {
@@ -277,6 +295,11 @@ func serviceCases(r *rand.Rand, wrap func(s A) interface{}) []pcase {
 	ok["type"] = randID(r, 30)
 	ok["id"] = randID(r, 50)
 	out = append(out, pcase{"valid-boundary-lengths", wrap(A{ok}), true})
+	for i, ty := range []string{" ", strings.Repeat(" ", 30), "Linked Domains", " x", "x ", randID(r, 28) + "  "} {
+		okb := copyM(s1)
+		okb["type"] = ty
+		out = append(out, pcase{fmt.Sprintf("valid-type-with-blanks-%d", i), wrap(A{okb}), true})
+	}
 	return out
 }
 
